@@ -67,6 +67,8 @@ PROPS["C09"] = {"level": "exploration",
     "assumptions": ["part R: real goroutines and real time, test binary built with -race; the interleavings explored are whatever the Go scheduler produces (16 cores); a watchdog hit is inconclusive (exit 2), never a violation", "data races are those the race detector observes in these executions"],
     "parts": [dict(H("TestC09Race", "R", 40, 400, qs=2, ts=16), race=True)]}
 
+PROPS["C10"]["parts"].append(dict(H("TestC10IDsExhaustive", "ids", 1, 1, qs=1, ts=1), rapid=False))
+
 META = {
     "C09": {"text": "Randomised real-thread executions under the Go race detector: 2-16 concurrent clients in shared sessions, all modules, both through websocket.Handle with the production logging/metrics decorators (clients keep reading) and against bare handlers (higher contention); any race report, panic, unanswered request, or residue after all clients left fails the check. Exploration level: schedules are sampled, not enumerated.",
             "design_ref": "DESIGN.md 4 (C09)", "note": "Trusted: Go's race detector; the client mix in harness/props/c09_test.go. Lock-granularity enumeration (scheduled driver) is a separate part when present.", "technique": "randomised concurrent stress generation (rapid-seeded) with the Go race detector and liveness/residue oracles"},
